@@ -475,6 +475,8 @@ func managerList(m cmdutils.StateManager, ok bool) string {
 
 var pids = []peer.ID{common.PeerN(0)}
 
+var otherNsKey = ds.NewKey("/verifother/key")
+
 // comment lines to print after the current case line
 var comments []string
 
@@ -482,7 +484,7 @@ func runPins(c pinsCase) string {
 	ctx := context.Background()
 	dir := scratch("pins")
 	defer os.RemoveAll(dir)
-	res := map[string]string{"exp": "-", "expc": "-", "mar": "-", "marx": "-", "snap": "-", "start": "-"}
+	res := map[string]string{"crdt": "-", "oth": "-", "exp": "-", "expc": "-", "mar": "-", "marx": "-", "snap": "-", "start": "-"}
 
 	src, err := newMemState(c.gen, dssync.MutexWrap(ds.NewMapDatastore()), "/src")
 	if err != nil {
@@ -605,6 +607,10 @@ func runPins(c pinsCase) string {
 						return err
 					}
 					defer store.Close()
+					// a key OUTSIDE the crdt namespace of the shared datastore: crdt.Clean must leave it
+					if err := store.Put(otherNsKey, []byte("kept")); err != nil {
+						return err
+					}
 					st, err := mgrC.GetOfflineState(store)
 					if err != nil {
 						return err
@@ -626,6 +632,19 @@ func runPins(c pinsCase) string {
 				return
 			}
 			err = safely(func() error { return mgrC.ImportState(bytes.NewReader(damageStream(c.damage, exported))) })
+			// what crdt.OfflineState reads from the crdt namespace right after the import
+			res["crdt"] = managerList(mgrC, err == nil)
+			if len(c.prior) > 0 {
+				res["oth"] = "0"
+				if store, e := mgrC.GetStore(); e != nil {
+					res["oth"] = "?"
+				} else {
+					if has, e := store.Has(otherNsKey); e == nil && has {
+						res["oth"] = "1"
+					}
+					store.Close()
+				}
+			}
 			if err != nil {
 				res["expc"] = managerList(mgrC, false)
 				return
@@ -653,8 +672,8 @@ func runPins(c pinsCase) string {
 		}
 	}
 
-	return fmt.Sprintf("src=%s exp=%s expc=%s mar=%s snap=%s start=%s marx=%s", showPins(srcList),
-		res["exp"], res["expc"], res["mar"], res["snap"], res["start"], res["marx"])
+	return fmt.Sprintf("src=%s exp=%s expc=%s mar=%s snap=%s start=%s marx=%s crdt=%s oth=%s", showPins(srcList),
+		res["exp"], res["expc"], res["mar"], res["snap"], res["start"], res["marx"], res["crdt"], res["oth"])
 }
 
 // startOnSnapshot saves the state as a snapshot for a single-peer cluster and starts the
